@@ -17,9 +17,9 @@ def run(c):
     _dpadv.pipeline(
         c, "C12",
         explores=[("ohp", False)],
-        budget=5000,
+        budget=10000,
         rand=[{"rand": 20000 if th else 1500, "maxhops": 4, "kinds": ["ohp"]}, {"ohp": 60 if th else 12}],
-        flags=["-variants", "3" if th else "1"],
+        flags=["-variants", "3" if th else "2"],
         nontrivial=lambda e: e["p"]["kind"] == "ohp")
     c.cov["rule"] = ("one event = one real one-hop (or reversed one-hop) packet through a real router, judged by C12Key "
                      "/ the ohprev record; distinct = distinct (abstract packet, disposition, egress, scope) tuples")
